@@ -24,6 +24,20 @@ pub fn run(case: &Value, em: &mut Emitter) {
         em.emit("typed", json!({"doc": doc}), out);
         return;
     }
+    if case["op"] == "flatten_rewrite" {
+        let smi = match sourcemap::decode_slice(&bytes) { Ok(DecodedMap::Index(i)) => i, _ => return };
+        let p0 = proj_map(&DecodedMap::Index(smi.clone()));
+        let prefixes: Vec<String> = case["opts"]["prefixes"].as_array().unwrap().iter().map(cps_to_string).collect();
+        let pr: Vec<&str> = prefixes.iter().map(|s| s.as_str()).collect();
+        let ro = sourcemap::RewriteOptions { with_names: case["opts"]["names"].as_bool().unwrap(), with_source_contents: case["opts"]["contents"].as_bool().unwrap(),
+                                             strip_prefixes: &pr, ..Default::default() };
+        let out = guard(|| match smi.flatten_and_rewrite(&ro) {
+            Ok(sm) => json!({"k": "ok", "p2": proj_map(&DecodedMap::Regular(sm))}),
+            Err(_) => json!({"k": "err"}),
+        });
+        em.emit("flatten_rewrite", json!({"p0": p0, "opts": case["opts"]}), out);
+        return;
+    }
     // "sections": an index document whose section k (1-based) carries only a URL; plug map `plug` in afterwards
     let k = case["k"].as_u64().unwrap() as u32;
     let plug_doc = normalise_doc(&case["plug"]);
@@ -51,6 +65,11 @@ pub fn run(case: &Value, em: &mut Emitter) {
 }
 
 pub fn gen(rng: &mut Rng, size: usize) -> Value {
+    if rng.chance(1, 3) {
+        let prefixes: Vec<Value> = match rng.below(4) { 0 => vec![], 1 => vec![cps("/abs")], 2 => vec![cps("dir"), cps("http://h")], _ => vec![cps("r"), cps("/")] };
+        return json!({"op": "flatten_rewrite", "doc": crate::c02::gen_index_doc(rng, size, 1),
+                      "opts": {"names": rng.chance(1, 2), "contents": rng.chance(1, 2), "prefixes": prefixes}});
+    }
     if rng.chance(1, 2) {
         let d = match rng.below(4) { 0 => crate::c02::gen_index_doc(rng, size, 1), 1 => crate::c02::gen_flat_doc(rng, size, true), _ => crate::c02::gen_flat_doc(rng, size, false) };
         return json!({"op": "typed", "doc": d});
